@@ -470,7 +470,13 @@ func (fg *FunctionGenerator) GenerateCustom(ast parser2.AST, gc funcGen.Generato
 						}
 					}
 				} else {
-					return nil, fmt.Errorf("not a bool: %s", TypeName(aVal))
+					// not a bool, use the operator implementation (e.g. int & int)
+					// to get the same result as the optimizer
+					bVal, err := bFunc(st, cs)
+					if err != nil {
+						return nil, err
+					}
+					return g.GetOpImpl("&").Calc(st, aVal, bVal)
 				}
 			}, aPure && bPure, nil
 		case "|":
@@ -502,7 +508,13 @@ func (fg *FunctionGenerator) GenerateCustom(ast parser2.AST, gc funcGen.Generato
 						}
 					}
 				} else {
-					return nil, fmt.Errorf("not a bool: %s", TypeName(aVal))
+					// not a bool, use the operator implementation (e.g. int | int)
+					// to get the same result as the optimizer
+					bVal, err := bFunc(st, cs)
+					if err != nil {
+						return nil, err
+					}
+					return g.GetOpImpl("|").Calc(st, aVal, bVal)
 				}
 			}, aPure && bPure, nil
 		}
